@@ -73,13 +73,18 @@ func verifWTWrite(cas *CAStore, name string, size uint64, streamed int, fail boo
 func verifWTRun() {
 	maxSize := verif.Uint64("max_size")
 	cas := verifWTStore(maxSize)
-	k := verif.Bound("ops", 3, 4)
+	k := verif.Bound("ops", 2, 3)
 	for i := 0; i < k; i++ {
 		switch verif.Choice("op", 2) {
 		case 0:
 			streamed := verif.Len("streamed_len", verif.Bound("min_streamed_len", 1, 0), 2)
 			name := verifWTNames[streamed]
-			size := uint64(streamed) // a mismatch is the subject of FINDINGS.md
+			// the backend-reported size may differ from what the stream delivers
+			size := uint64(streamed + verif.Choice("reported_size_delta", 3) - 1)
+			if streamed == 0 && size > 1 {
+				size = 0
+			}
+			verif.Cover("reported-size-differs", size != uint64(streamed))
 			fail := verif.Choice("stream_outcome", 2) == 1
 			inMem := cas.memCache.Get(name) != nil
 			err := verifWTWrite(cas, name, size, streamed, fail)
